@@ -18,6 +18,7 @@ Send(ch) == St("send", ch, 0, "")
 Recv(ch) == St("recv", ch, 0, "")
 SendSelf(d) == St("sendself", d, 0, "")
 Restart(d) == St("restart", d, 0, "")
+PanicT == St("panic", 0, 0, "")
 
 Seqs(S, n) == UNION {[1..k -> S] : k \in 1..n}
 (* timer-centric steps: every way a timer can be created, fire, be reset or be dropped before firing *)
@@ -46,5 +47,9 @@ ProgsChan == {[t \in Tasks |-> IF t = 1 THEN p1 ELSE p2 \o <<Sleep(1)>>] : p1 \i
 LifeSteps1 == {Sleep(1), Sleep(2), Restart(1), Restart(3), ToSleep(3, 1)}
 LifeSteps2 == {Sleep(1), Sleep(3), Sleep(4), ToNever(2), Select(2, 5)}
 ProgsLife == {[t \in Tasks |-> IF t = 1 THEN p1 \o <<Sleep(1)>> ELSE p2 \o <<Sleep(2)>>] : p1 \in Seqs(LifeSteps1, 3), p2 \in Seqs(LifeSteps2, 2)}
+(* C13: panics inside tasks (joined with join / try_join / not at all): confined to the task *)
+PanicSteps1 == {Sleep(1), Sleep(2), Send(1), PanicT, SendSelf(1), Recv(0)}
+PanicSteps2 == {Recv(1), ToRecv(2, 1), Sleep(1), Sleep(3), PanicT}
+ProgsPanic == {[t \in Tasks |-> IF t = 1 THEN p1 ELSE p2 \o <<Sleep(1)>>] : p1 \in Seqs(PanicSteps1, 3), p2 \in Seqs(PanicSteps2, 2)}
 
 =============================================================================
